@@ -10,6 +10,16 @@ BECH32_ASSUME = [
 ]
 
 PROPS = {
+    "C01": dict(
+        pkg="c01",
+        quick=T(8, 1, 900),
+        thorough=T(16, 40, 3400, fuzz=[dict(name="FuzzVerify", count=150000)]),
+        assumptions=[
+            "harness/ref/ed: big-integer edwards25519 model written from RFC 8032 5.1 and ZIP-215 (self-checked: base point encoding, L*B = O, the 8 published small-order encodings, RFC 8032 test vector 1) evaluates the statement's predicate literally",
+            "crypto/ed25519 as one-sided oracle (everything it accepts must be accepted)",
+            "public keys are always 32 bytes (other lengths are a documented panic)",
+        ],
+    ),
     "C02": dict(
         pkg="c02",
         quick=T(8, 1, 900),
@@ -72,6 +82,15 @@ PROPS = {
         thorough=T(16, 50, 3400),
         assumptions=["harness/ref/secp: affine secp256k1 with textbook case analysis (self-checked: G on curve, n*G = O, (n-1)G = -G, published 2G and 3G)",
                      "the internal copy of the curve is reached through elliptic.Secp256k1() (its dynamic type promotes the embedded elliptic.Curve methods)"],
+    ),
+    "C18": dict(
+        pkg="c18",
+        quick=T(8, 1, 900),
+        thorough=T(16, 40, 3400, fuzz=[dict(name="FuzzVerify", count=80000)]),
+        assumptions=[
+            "harness/ref/vrf: own RFC 9381 ECVRF-EDWARDS25519-SHA512-TAI on harness/ref/ed (reproduces RFC 9381 appendix B.3 examples 16-18)",
+            "public keys are always 32 bytes (other lengths are a documented panic)",
+        ],
     ),
     "C19": dict(
         pkg="c19",
